@@ -36,10 +36,37 @@ def parseEvents (s : String) : Option (List (Char × Nat)) :=
 
 def field (kv : List (String × String)) (k : String) : Option String := (kv.find? (·.1 == k)).map (·.2)
 
+/-- `3:4.5,8:9.10` -> [(3,[4,5]),(8,[9,10])] -/
+def parseProv (s : String) : Option (List (Nat × List Nat)) :=
+  if s = "-" || s = "" then some [] else
+  (s.splitOn ",").mapM fun e =>
+    match e.splitOn ":" with
+    | [i, ps] => do pure (← i.toNat?, ← (ps.splitOn ".").mapM String.toNat?)
+    | _ => none
+
+/-- what a target really depends on: declared dependencies with require/provide resolved (a dependent that
+    requires "lang" gets the provider's targets instead of the provider), plus what post-build functions of other
+    targets attach to it (`late`: adder:target.newdep) -/
+def effDeps (deps : List (List Nat)) (prov : List (Nat × List Nat)) (req : List Nat) (late : List (Nat × List Nat))
+    (t : Nat) : List Nat :=
+  let base := (deps[t]?).getD []
+  let resolved := base.flatMap fun d =>
+    match prov.find? (·.1 == d) with
+    | some (_, ps) => if req.contains t then ps else [d]
+    | none => [d]
+  let added := late.filterMap fun (_, tx) => match tx with | [t', x] => if t' == t then some x else none | _ => none
+  (resolved ++ added).eraseDups
+
 def parseCase (line : String) : Option Case := do
   let fs := (line.splitOn " ").drop 1
   let kv ← fs.mapM fun f => match f.splitOn "=" with | [k, v] => some (k, v) | _ => none
-  let deps ← parseDeps (← field kv "deps")
+  let deps0 ← parseDeps (← field kv "deps")
+  let prov ← parseProv ((field kv "prov").getD "-")
+  let req ← parseInts ((field kv "req").getD "-")
+  let late ← parseProv ((field kv "late").getD "-")
+  if prov.any (fun p => p.1 ≥ deps0.length || p.2.any (· ≥ deps0.length)) || req.any (· ≥ deps0.length)
+      || late.any (fun p => p.1 ≥ deps0.length || p.2.length != 2 || p.2.any (· ≥ deps0.length)) then none
+  let deps := (List.range deps0.length).map (effDeps deps0 prov req late)
   let roots ← parseInts (← field kv "roots")
   let ev ← parseEvents (← field kv "ev")
   let rc ← (← field kv "rc").toNat?
